@@ -157,6 +157,20 @@ def main(argv: List[str]) -> int:
         for f in cf.as_completed(futs):
             label, modname, hname, payload, k = futs[f]
             r = f.result()
+            if r.get("status") == "REFUTED" and not r.get("replayed_by_worker") and meta[(modname, hname)].get("kind") != "smt":
+                # replay at once; a counterexample that does not reproduce in a plain interpreter is an artefact of the
+                # symbolic run (it has happened, rarely, with imports executed under the tracer): the job is run once more
+                # and only the second run counts (a real, deterministic violation is found again and replays)
+                kwargs = dict(r["cex"]["args"])
+                kwargs.update(payload.get("fixed", {}))
+                rp = _run_worker(["replay", modname, hname, json.dumps({"kwargs": kwargs})], 600)
+                if rp.get("reproduced"):
+                    r["replay"], r["replayed_by_worker"] = rp, True
+                else:
+                    first = {"args": r["cex"]["args"], "message": r["cex"].get("message"), "kind": r["cex"].get("kind")}
+                    print(f"[{prop}] {label}: counterexample {first} did not reproduce concretely - job run again", flush=True)
+                    r = _run_worker(["explore", modname, hname, json.dumps(payload)], payload["timeout"] * 3 + 120)
+                    r["rerun_after_nonreproducing_counterexample"] = first
             results.append((label, modname, hname, payload, k, r))
             print(
                 f"[{prop}] {label} fixed={json.dumps(payload.get('fixed', {}))} -> {r.get('status')} "
